@@ -52,7 +52,8 @@ def _policy(kind: str, p: P, clock):
             capacity=cap,
         )
     if kind == "red":
-        return REDQueue(min_threshold=2, max_threshold=6, max_probability=0.5, capacity=cap)
+        capr = max(2, cap)  # RED needs 0 <= min_threshold < max_threshold <= capacity
+        return REDQueue(min_threshold=min(2, capr - 1), max_threshold=min(6, capr), max_probability=0.5, capacity=capr)
     raise KeyError(kind)
 
 
@@ -180,3 +181,57 @@ def tandem_servers(seed, params):
     sim = make_sim([s1, s2, s3, sink], p.end())
     _burst(sim, s1, arr)
     return Scenario(sim, {"s1": s1, "s2": s2, "s3": s3, "sink": sink}, "queues", True, len(arr))
+
+
+# ----------------------------------------------------------------------
+# degenerate capacities and zero durations
+
+
+@scenario("queues.degenerate_capacities", "queues")
+def degenerate_capacities(seed, params):
+    """Every queue policy with capacity 1 in front of a zero-service-time server and of a slow one;
+    a raw Queue/QueueDriver pair whose worker takes zero time; RandomRouter with ONE target."""
+    p = P(params, seed)
+    sink = Recorder("sink")
+    box = {}
+    ents = []
+    heads = []
+    for i, kind in enumerate(("fifo", "lifo", "priority", "adaptive_lifo", "codel", "deadline", "fair", "wfq", "red")):
+        pp = P({**p.d, "x": {**(p.d.get("x") or {}), "queue_capacity": 1 if i % 2 == 0 else p.count(0, 3)}}, seed)
+        name = f"srv_{kind}"
+        pol = _policy(kind, pp, (lambda n=name: box[n].now))
+        st = ConstantLatency(0.0) if i % 3 == 0 else ConstantLatency(p.lat(i))
+        srv = Server(name, concurrency=1, service_time=st, queue_policy=pol, downstream=sink)
+        box[name] = srv
+        ents.append(srv)
+        heads.append(srv)
+    worker = SlowWorker("worker", 0.0, sink, concurrency=1)
+    q = Queue(name="q", policy=FIFOQueue(capacity=1))
+    d = QueueDriver(name="driver", queue=q, target=worker)
+    q.egress = d
+    router = RandomRouter("router", targets=[heads[0]])
+    arr = p.arrivals(6)
+    sim = make_sim([*ents, q, d, worker, router, sink], p.end())
+    n = 0
+    for h in [*heads, q, router]:
+        _burst(sim, h, arr)
+        n += len(arr)
+    return Scenario(sim, {"q": q, "worker": worker, "sink": sink, **{e.name: e for e in ents}}, "queues", True, n)
+
+
+@scenario("queues.tandem_counts", "queues")
+def tandem_counts(seed, params):
+    """p.count servers in series with identical service times (sums of n identical delays) and capacity 1 queues."""
+    p = P(params, seed)
+    sink = Recorder("sink")
+    n = p.count(0, 4)
+    nxt = sink
+    servers = []
+    for i in range(n):
+        s = Server(f"s{i}", concurrency=1, service_time=ConstantLatency(p.lat(0)), queue_capacity=p.count(1, 2), downstream=nxt)
+        servers.append(s)
+        nxt = s
+    arr = p.arrivals(8)
+    sim = make_sim([*servers, sink], p.end())
+    _burst(sim, nxt, arr)
+    return Scenario(sim, {"head": nxt, "sink": sink}, "queues", True, len(arr))
